@@ -266,9 +266,18 @@ func vfHostile(tag string, maxSeg int) string {
 		if i > 0 {
 			s += "/"
 		}
-		s += []string{"..", ".", "", "x", "other", "secret", "canary"}[zzvf.Choice(tag+"$seg", 7)]
+		s += []string{"..", ".", "", "x", "other", "secret", "canary", "%2e%2e"}[zzvf.Choice(tag+"$seg", 8)]
 	}
 	return s
+}
+
+func vfHasEncodedDots(s string) bool {
+	for i := 0; i+6 <= len(s); i++ {
+		if s[i:i+6] == "%2e%2e" {
+			return true
+		}
+	}
+	return false
 }
 
 func vfHasDotSegment(s string) bool {
@@ -324,7 +333,7 @@ func VfConfinement() {
 	p, protected := vfConfinementWorld()
 	op := zzvf.Choice("operation", 8)
 	h := vfHostile("value", seg)
-	zzvf.Assume(vfHasDotSegment(h) || len(h) > 0 && h[0] == '/')
+	zzvf.Assume(vfHasDotSegment(h) || len(h) > 0 && h[0] == '/' || vfHasEncodedDots(h))
 	// bucket and key come from the request path, which the URL decoder refuses when it has dot segments (VfDecodeURL);
 	// the values below travel in headers and query parameters
 	one := int64(1)
@@ -339,7 +348,7 @@ func VfConfinement() {
 		_, err = p.CopyObject(vfCtx(), s3response.CopyObjectInput{Bucket: vfStr("bkt"), Key: &dst, CopySource: &src, ExpectedBucketOwner: vfStr("caller")})
 	case 1:
 		name = "ListObjectsV2 prefix"
-		mk := int32(10)
+		mk := int32(1 + 9*zzvf.Choice("max_keys_10", 2))
 		_, err = p.ListObjectsV2(vfCtx(), &s3.ListObjectsV2Input{Bucket: vfStr("bkt"), Prefix: &h, ContinuationToken: vfStr(""),
 			Delimiter: vfStr(""), StartAfter: vfStr(""), MaxKeys: &mk})
 	case 2:
